@@ -49,7 +49,7 @@ def call_site(ctx) -> None:
     complete, indices = (names + ['complete', 'indices'])[:2]
     # refusal
     raises = [r for r in core.walk_local(fn.node) if isinstance(r, ast.Raise)]
-    refusing = [r for r in raises if any(pol and core.src(t) == f'not {complete}' for t, pol in cfg.guards(r, fn.node, siblings=False))]
+    refusing = [r for r in raises if (complete, False) in cfg.cguards(r, fn.node)]
     ctx.check(bool(refusing) and all('MissingError' in core.src(r) for r in refusing), 'C15.refusal', fn, 'an entry lacking a required column is refused (MissingError under `not complete`)', fn.node, key='refusal')
     uses = [s for s in graph.statements() if any(isinstance(n, ast.Attribute) and core.src(n) == 'entry.data' for e in cfg.header_exprs(s) for n in ast.walk(e))]
     if refusing:
@@ -108,8 +108,8 @@ def match_entry(ctx) -> None:
             apps = [c for c in core.calls_in(lp) if isinstance(c.func, ast.Attribute) and c.func.attr == 'append' and core.src(c.func.value) == 'indices']
             app_ok = len(apps) == 1 and core.src(apps[0].args[0]) == f'source[{col}]'
             for r in [r for r in ast.walk(lp) if isinstance(r, ast.Return)]:
-                gs = [core.src(t) for t, pol in cfg.guards(r, fn.node, siblings=False) if pol]
-                if f'{col} not in source' in gs and core.src(r.value) in ('(False, None)',):
+                gs = cfg.cguards(r, fn.node)
+                if (f'{col} not in source', True) in gs and core.src(r.value) in ('(False, None)',):
                     absent_ok = True
                     if apps:
                         ast_if = next(a for a in core.ancestors(r) if isinstance(a, ast.If))
@@ -121,7 +121,7 @@ def match_entry(ctx) -> None:
     ident = [r for r in core.walk_local(fn.node) if isinstance(r, ast.Return) and core.src(r.value) == '(True, None)']
     ctx.check(all(any(core.src(t) == 'identical' and pol for t, pol in cfg.guards(r, fn.node, siblings=False)) for r in ident), 'C15.order', fn, 'indices are omitted only for identical schemas', fn.node, key='identical')
     ids = [s for s in ast.walk(fn.node) if isinstance(s, ast.Assign) and core.src(s.targets[0]) == 'identical' and core.is_const(s.value, False)]
-    ctx.check(all(any('supply != demand' in core.src(t) and pol for t, pol in cfg.guards(s, fn.node, siblings=False)) for s in ids) and bool(ids), 'C15.order', fn, 'identical is dropped as soon as one position differs', fn.node, key='identical:cond')
+    ctx.check(all(('identical and supply != demand', True) in cfg.cguards(s, fn.node) or ('supply != demand', True) in cfg.cguards(s, fn.node) for s in ids) and bool(ids), 'C15.order', fn, 'identical is dropped as soon as one position differs', fn.node, key='identical:cond')
 
 
 def cast(ctx) -> None:
